@@ -39,10 +39,13 @@ def run(tier):
         ck.model("DecBounds mutation %s (expected to violate %s)" % (cfg, inv), rm, {"violated": rm.invariant_violated})
         if rm.invariant_violated != inv:
             ck.warn("mutation config %s was not rejected (%s)" % (cfg, rm.invariant_violated))
-    variants = ["san"] + (["v_x1", "v_x2", "v_long"] if tier != "quick" else [])
+    # (quick: the forced prefetching sequence decoder as well, on a reduced script: its address arithmetic sees every corrupted offset)
+    variants = ["san", "v_long"] + (["v_x1", "v_x2"] if tier != "quick" else [])
     for var in variants:
         exe = core.build_exe("decdrv", ["decdrv.c", "refdec.c"], var)
         pending = script(ck.rng, tier)
+        if tier == "quick" and var != "san":
+            pending = ["MUT mixed %d 40 8" % ck.rng.randint(1, 2000000), "MUT repeat %d 20 6" % ck.rng.randint(1, 2000000), "MUT comp %d 6 12" % ck.rng.randint(1, 2000000)]
         if var == "san":
             ck.sample(pending)
         part = 0
